@@ -268,10 +268,10 @@ Lemma exp_split_spec its now lim : forall lst set zs l' set',
 Proof.
   induction lst as [|x r IH]; intros set zs l' set' Hsub Hnd Hnds Hal Hk E; simpl in E.
   - inversion E; subst. simpl. repeat split; auto; tauto.
-  - destruct (Hal x (Hsub x (or_introl eq_refl))) as [it Hx]. revert E. rewrite Hx.
-    destruct ((i_expire it <? now) || (lim <? Z.of_nat (length set))).
+  - destruct (Hal x (Hsub x (or_introl eq_refl))) as [it Hx]. rewrite Hx in E.
+    match type of E with context [if ?c then _ else _] => destruct c eqn:Ec end.
     + destruct (exp_split its now lim r (erase_key its set (i_key it))) as [[zs0 l0] set0] eqn:E0.
-      intros E. inversion E; subst.
+      inversion E; subst.
       assert (NDr : NoDup r) by (inversion Hnd; auto). assert (Nx : ~ In x r) by (inversion Hnd; auto).
       assert (S1 : forall j, In j (erase_key its set (i_key it)) <-> In j set /\ j <> x).
       { intros j. rewrite in_erase_key. split.
@@ -286,10 +286,10 @@ Proof.
                    nth_error its a = Some ia -> nth_error its b = Some ib -> i_key ia = i_key ib -> a = b).
       { intros a b ia ib Ha Hb. apply S1 in Ha. apply S1 in Hb. apply Hk; tauto. }
       destruct (IH _ _ _ _ P1 NDr P2 P3 P4 E0) as [A [B C]].
-      simpl. split; [f_equal; exact A|]. split; [|exact C]. intros j. split.
-      * intros Hj. apply B in Hj. destruct Hj as [Hj Hn]. apply S1 in Hj. split; [tauto|]. intros [<-|?]; tauto.
-      * intros [Hj Hn]. apply B. split. { apply S1. split; auto. intros ->. apply Hn; left; auto. } intros ?. apply Hn; right; auto.
-    + intros E. inversion E; subst. simpl. repeat split; auto; tauto.
+      simpl. split; [rewrite A; reflexivity|]. split; [|exact C]. intros j. split.
+      * intros Hj. apply B in Hj. destruct Hj as [Hj Hn]. apply S1 in Hj. destruct Hj as [Hj1 Hj2]. split; [exact Hj1|]. intros [Hq|Hq]; [congruence|tauto].
+      * intros [Hj Hn]. apply B. split. { apply S1. split; [exact Hj|]. intros Hq. apply Hn. left. auto. } intros Hq. apply Hn. right. exact Hq.
+    + inversion E; subst. simpl. repeat split; auto; tauto.
 Qed.
 
 Lemma exp_inv s s' t th th' kt zs l' set' :
@@ -303,11 +303,7 @@ Proof.
   destruct (exp_split_spec _ _ _ _ _ _ _ _ (fun j H => proj1 (inv_list s I j H)) (inv_list_nodup s I) (inv_set_nodup s I)
               (fun j H => let '(ex_intro _ it (conj a _)) := inv_set_live s I j H in ex_intro _ it a) (inv_set_key s I) E) as [A [B C]].
   assert (NDz : NoDup zs /\ NoDup l' /\ forall j, In j zs -> ~ In j l').
-  { pose proof (inv_list_nodup s I) as N. rewrite A in N. split; [|split].
-    - eapply NoDup_app_remove_r; eauto.
-    - eapply NoDup_app_remove_l; eauto.
-    - intros j Hz Hl. revert N Hz Hl. clear. induction zs; simpl; intros; auto. inversion N; subst. destruct Hz as [<-|Hz]; auto.
-      apply H1. apply in_or_app; auto. }
+  { pose proof (inv_list_nodup s I) as N. rewrite A in N. apply nodup_app_inv; auto. }
   destruct NDz as [NDz [NDl DJ]].
   assert (ZL : forall j, In j zs -> In j (s_list s)) by (intros; rewrite A; apply in_or_app; auto).
   assert (TH : forall j, total_holds s' j = total_holds s j).
